@@ -377,13 +377,18 @@ fn real_dispatcher(cfg: &Cfg, rep: &mut Report) {
     let mut k = 0u64;
     for ep in ["transfer", "transfer_from", "mint", "burn", "forced_transfer"] {
         for deny_mask in 0u32..8 {
-            for reg_mask in [0b111u32, 0b101, 0b011, 0b000] {
+            for (reg_mask, variant) in [(0b111u32, 0u32), (0b101, 0), (0b011, 0), (0b000, 0), (0b111, 1), (0b111, 2), (0b101, 1), (0b011, 2), (0b111, 3)] {
                 k += 1;
                 let h = 40_000 + k;
                 if h % cfg.nshards as u64 != cfg.shard as u64 || !cfg.runs(h) {
                     continue;
                 }
                 rep.begin_history(h);
+                // which of the five hooks each registered module subscribes to (bit j = hook j of `hooks`):
+                // variant 0 all of them; otherwise a subset drawn per module, so that the modules of one hook
+                // differ from those of another (a dispatcher that reads the wrong hook's list shows)
+                let mut hrng = Rng::for_history(cfg.seed, "C04", 0, h);
+                let hook_mask: Vec<u32> = (0..3).map(|_| if variant == 0 { 0b11111 } else { 1 + hrng.below(31) as u32 }).collect();
                 let w = World::new(100, 16);
                 let e = &w.env;
                 e.mock_all_auths();
@@ -397,16 +402,20 @@ fn real_dispatcher(cfg: &Cfg, rep: &mut Report) {
                 invoke::<()>(e, &tok, "mint", args!(e, u[0], 1000i128)).expect("setup mint");
                 invoke::<()>(e, &tok, "approve", args!(e, u[0], u[2], 1000i128, w.ledger() + 100)).expect("setup approve");
                 let registered: Vec<usize> = (0..3).filter(|i| reg_mask >> i & 1 == 1).collect();
+                // hook numbers as the modules log them: 0 transferred, 1 created, 2 destroyed, 3 can_transfer, 4 can_create
+                let hooks = [ComplianceHook::Transferred, ComplianceHook::Created, ComplianceHook::Destroyed, ComplianceHook::CanTransfer, ComplianceHook::CanCreate];
                 for i in &registered {
-                    for hk in [ComplianceHook::CanTransfer, ComplianceHook::CanCreate, ComplianceHook::Transferred, ComplianceHook::Created, ComplianceHook::Destroyed] {
-                        invoke::<()>(e, &comp, "add_module_to", args!(e, hk, mods[*i].clone())).unwrap();
+                    for (j, hk) in hooks.iter().enumerate() {
+                        if hook_mask[*i] >> j & 1 == 1 {
+                            invoke::<()>(e, &comp, "add_module_to", args!(e, hk.clone(), mods[*i].clone())).unwrap();
+                        }
                     }
                 }
+                let subscribed = |i: usize, j: u32| registered.contains(&i) && hook_mask[i] >> j & 1 == 1;
                 for i in 0..3 {
                     let d = deny_mask >> i & 1 == 1;
                     invoke::<()>(e, &mods[i], "set_flags", args!(e, d, d)).unwrap();
                 }
-                let denies = registered.iter().any(|i| deny_mask >> i & 1 == 1);
                 let (f, a, gated, kind, pa, pb): (&str, _, bool, u32, usize, usize) = match ep {
                     "transfer" => ("transfer", args!(e, u[0], u[1], 10i128), true, 0, 0, 1),
                     "transfer_from" => ("transfer_from", args!(e, u[2], u[0], u[1], 10i128), true, 0, 0, 1),
@@ -414,12 +423,15 @@ fn real_dispatcher(cfg: &Cfg, rep: &mut Report) {
                     "burn" => ("burn", args!(e, u[0], 10i128), false, 2, 0, 0),
                     _ => ("forced_transfer", args!(e, u[0], u[1], 10i128), false, 0, 0, 1),
                 };
+                // the gate hook that is asked about this movement: can_create for a mint, can_transfer otherwise
+                let gate_hook = if kind == 1 { 4 } else { 3 };
+                let denies = (0..3).any(|i| subscribed(i, gate_hook) && deny_mask >> i & 1 == 1);
                 e.mock_all_auths();
                 let got: Result<Val, Fail> = invoke(e, &tok, f, a);
                 rep.evaluations += 1;
                 let want = !(gated && denies);
-                rep.op(format!("{ep} with modules registered {registered:?}, denying mask {deny_mask:03b} -> {}", tag(&got)));
-                rep.case(format!("dispatcher/{ep}/reg={reg_mask:03b}/deny={deny_mask:03b}/{}", tag(&got)));
+                rep.op(format!("{ep} with modules registered {registered:?} for hooks {hook_mask:?}, denying mask {deny_mask:03b} -> {}", tag(&got)));
+                rep.case(format!("dispatcher/{ep}/reg={reg_mask:03b}/hooks={}/deny={deny_mask:03b}/{}", if variant == 0 { "all" } else { "subsets" }, tag(&got)));
                 rep.count(&format!("dispatcher:{}", if got.is_ok() { "ok" } else { "refused" }));
                 if got.is_ok() && gated {
                     rep.check("gate", !denies, &format!("C04/gate/{ep}/passed-although-a-compliance-module-denies"), || {
@@ -430,8 +442,17 @@ fn real_dispatcher(cfg: &Cfg, rep: &mut Report) {
                 for i in 0..3 {
                     let l: SVec<HookCall> = invoke(e, &mods[i], "log", args!(e)).unwrap();
                     let lv: Vec<(u32, usize, usize, i128)> = l.iter().map(|hc| (hc.kind, u.iter().position(|x| *x == hc.a).unwrap_or(9), u.iter().position(|x| *x == hc.b).unwrap_or(9), hc.amount)).collect();
-                    let wantv: Vec<(u32, usize, usize, i128)> = if got.is_ok() && registered.contains(&i) { vec![(kind, pa, pb, 10)] } else { vec![] };
-                    rep.check("log", lv == wantv, &format!("C04/log/dispatcher/{ep}/module-notifications"), || format!("module {i} (registered: {}): notifications {lv:?}, expected {wantv:?}", registered.contains(&i)));
+                    let wantv: Vec<(u32, usize, usize, i128)> = if got.is_ok() && subscribed(i, kind) { vec![(kind, pa, pb, 10)] } else { vec![] };
+                    rep.check("log", lv == wantv, &format!("C04/log/dispatcher/{ep}/module-notifications"), || format!("module {i} (registered: {}, hooks {:05b}): notifications {lv:?}, expected {wantv:?}", registered.contains(&i), hook_mask[i]));
+                    // the questions a gated movement puts to the modules of its gate hook: about this movement
+                    // (these parties in this direction, this amount) and to nobody else
+                    if got.is_ok() {
+                        let q: SVec<HookCall> = invoke(e, &mods[i], "questions", args!(e)).unwrap();
+                        let mut qv: Vec<(u32, usize, usize, i128)> = q.iter().map(|hc| (hc.kind, u.iter().position(|x| *x == hc.a).unwrap_or(9), u.iter().position(|x| *x == hc.b).unwrap_or(9), hc.amount)).collect();
+                        qv.dedup();
+                        let wantq: Vec<(u32, usize, usize, i128)> = if gated && subscribed(i, gate_hook) { vec![(gate_hook, pa, pb, 10)] } else { vec![] };
+                        rep.check("log", qv == wantq, &format!("C04/log/dispatcher/{ep}/module-questions"), || format!("module {i} (hooks {:05b}) was asked {qv:?}, expected {wantq:?} (kind 3 can_transfer, 4 can_create; parties as indices)", hook_mask[i]));
+                    }
                 }
                 rep.end_history();
             }
